@@ -452,11 +452,20 @@ func (s *Sim) Drain() {
 
 // StuckStacks returns the stacks of bubble goroutines (for deadlock reports).
 func StuckStacks() string {
+	// the caller is the scheduler, inside the bubble of interest
+	self := make([]byte, 256)
+	self = self[:runtime.Stack(self, false)]
+	tag := "synctest bubble"
+	if i := strings.Index(string(self), "synctest bubble "); i >= 0 {
+		if j := strings.IndexByte(string(self[i:]), ']'); j > 0 {
+			tag = string(self[i : i+j+1]) // "synctest bubble N]"
+		}
+	}
 	buf := make([]byte, 1<<20)
 	n := runtime.Stack(buf, true)
 	var out []string
 	for _, g := range strings.Split(string(buf[:n]), "\n\n") {
-		if strings.Contains(g, "synctest bubble") && !strings.Contains(g, "verifsim.StuckStacks") {
+		if strings.Contains(g, tag) && !strings.Contains(g, "verifsim.StuckStacks") && !strings.Contains(g, "[synctest.Run") {
 			if len(g) > 1500 {
 				g = g[:1500] + "\n\t..."
 			}
